@@ -298,6 +298,14 @@ def algebra(comb, built, T):
                 fails.append(("algebra/double-negation-does-not-cancel", {"arg": repr(a0)}))
         if comb == "not":
             return fails
+        if isinstance(T, L) and T.combinator == COMB[comb]:
+            # building a larger type from T leaves T as it was (T2 = T | C must not turn T into T | C)
+            before = tuple(T.args)
+            for extra in (complex, bytearray):
+                OPF[comb](T, extra)
+                f(T, extra)
+            if tuple(T.args) != before:
+                fails.append((f"algebra/combining-changes-the-operand/{comb}", {"before": repr(before), "after": repr(tuple(T.args))}))
         dup = f(*(list(built) + [built[0]]))
         ref = f(*built)
         if _args(dup) != _args(ref):
